@@ -1,15 +1,17 @@
-(* C03 — the discipline the code currently follows. When one of the proposed fixes
-   (proposed_fixes/C03-*.diff) is applied to rope, set the corresponding switch to true here: the
-   correspondence then compares the code with the repaired model, and the finding's replay moves to corpus/. *)
+(* C03 — the discipline the code currently follows. The four fixes committed in /repo
+   (25782e7 restore the conditional flag, c0fa7ad balanced loop_depth, f6cf806 nested writes do not kill,
+   99f0982 module-level parameters) are reflected by the four switches that are true here; as_is
+   (Collector.v) remains the discipline of the code as it was found and is only used by the `_refuted`
+   lemmas that document the fixed defects. If a further fix is applied, set its switch here. *)
 From RopeVerif.C03 Require Import Flow Collector.
 
 Definition current : switches :=
-  {| sw_restore := false;      (* proposed_fixes/C03-conditional-flag-restore.diff *)
-     sw_balanced := false;     (* proposed_fixes/C03-loop-depth-balanced.diff *)
-     sw_killnest := false;     (* proposed_fixes/C03-postwritten-nesting.diff *)
+  {| sw_restore := true;       (* 25782e7 *)
+     sw_balanced := true;      (* c0fa7ad *)
+     sw_killnest := true;      (* f6cf806 *)
      sw_readmaybe := false;
      sw_loopall := false;
-     sw_globalargs := false;   (* proposed_fixes/C03-module-level-args.diff *)
+     sw_globalargs := true;    (* 99f0982 *)
      sw_loopprew := false |}.
 
 Definition sw_or (a b : switches) : switches :=
